@@ -58,6 +58,7 @@ def a_coverage(r, extra=None):
         "definitions": r["defs"], "definitions_accepted_and_explored": r["explored"],
         "replay_requests": r["requests"], "configurations": r["cfgs"],
         "tlc_depth": r["tlc"]["depth"], "model_level_violations_logged": r["n_viol"],
+        "graph_state_kinds_covered": r.get("state_kinds", {}),
         "rule": "Attempt.tla: every reachable product state (captured graph x reference automata x UTF-8) of every accepted "
                 "corpus definition; one replay per product state x terminal block x {full, eoi, prefix}, run on the compiled lexers",
     }
